@@ -461,6 +461,25 @@ func chainReaches(files []ltxKey, target uint64) (uint64, bool) {
 	}
 }
 
+// uncovered returns the TXIDs of k that no file in files contains. With higher set only files
+// that can supersede k count: a higher compaction level, or another snapshot for a snapshot.
+func uncovered(k ltxKey, files []ltxKey, higher bool) []uint64 {
+	var missing []uint64
+	for n := k.min; n <= k.max; n++ {
+		ok := false
+		for _, f := range files {
+			if f.min <= n && n <= f.max && (!higher || f.level > k.level || (k.level == 9 && f.level == 9)) {
+				ok = true
+				break
+			}
+		}
+		if !ok {
+			missing = append(missing, n)
+		}
+	}
+	return missing
+}
+
 func (c *Checker) unlink(p string, ev Event) {
 	delete(c.files, p)
 	if !c.under(p) {
@@ -480,6 +499,11 @@ func (c *Checker) unlink(p string, ev Event) {
 			c.violate(fmt.Sprintf("R3-replica-unlink-breaks-durable-chain:l%d", k.level),
 				"R3: replica file %s unlinked (trace line %d of process %d) although the remaining durable replica files %v only chain from TXID 1 to %d; TXID %d was already acknowledged — a power failure now leaves no restorable replica of it",
 				k, ev.Line, c.phase, rest, reach, c.acked)
+		} else if missing := uncovered(k, rest, true); st != nil && st.present && len(missing) > 0 {
+			// the file itself must be superseded: every TXID it covers is contained in some other
+			// durable replica file of a higher level (for a snapshot: another snapshot)
+			c.violate(fmt.Sprintf("R3-replica-unlink-without-durable-superseder:l%d", k.level),
+				"R3: replica file %s unlinked (trace line %d of process %d) although TXID(s) %v it covers are not contained in any durable replica file that supersedes it — a higher level, or another snapshot for a snapshot (durable: %v)", k, ev.Line, c.phase, missing, rest)
 		} else {
 			c.Counts["R3_ok"]++
 		}
